@@ -446,9 +446,14 @@ impl ZipOffsetBlobStore {
             reader.read_exact(&mut padding)?;
         }
 
-        // Read offset index - this would need to be implemented in SortedUintVec
-        // For now, create empty offsets and populate manually
-        // TODO: Implement proper deserialization for SortedUintVec
+        // Read offset index
+        let mut offsets_image = vec![0u8; header.offsets_bytes as usize];
+        reader.read_exact(&mut offsets_image)?;
+        store.offsets = SortedUintVec::from_bytes(&offsets_image)?;
+        store.config.offset_config = *store.offsets.config();
+        if store.len() as u64 != header.records() {
+            return Err(ZiporaError::invalid_data("offset index does not match the record count"));
+        }
 
         // Update statistics
         store.stats.uncompressed_size = header.unzip_size as usize;
@@ -469,7 +474,8 @@ impl ZipOffsetBlobStore {
     pub fn save_to_writer<W: Write>(&self, writer: &mut W) -> Result<()> {
         // Calculate sizes
         let content_bytes = self.content.len() as u64;
-        let offsets_bytes = self.offsets.memory_usage() as u64;
+        let offsets_image = self.offsets.to_bytes();
+        let offsets_bytes = offsets_image.len() as u64;
         let content_padding = (16 - (content_bytes % 16)) % 16;
         let file_size = HEADER_SIZE as u64 + content_bytes + content_padding + offsets_bytes + FOOTER_SIZE as u64;
 
@@ -477,7 +483,7 @@ impl ZipOffsetBlobStore {
         let header = FileHeader::new(
             file_size,
             self.stats.uncompressed_size as u64,
-            self.offsets.len() as u64,
+            self.len() as u64,
             content_bytes,
             offsets_bytes,
             &self.config,
@@ -495,9 +501,11 @@ impl ZipOffsetBlobStore {
             writer.write_all(&padding)?;
         }
 
-        // Write offset index - TODO: Implement serialization for SortedUintVec
+        // Write offset index
+        writer.write_all(&offsets_image)?;
 
-        // Write footer with checksum - TODO: Implement XXHash64 checksum
+        // Write footer (reserved, zero) - TODO: Implement XXHash64 checksum
+        writer.write_all(&[0u8; FOOTER_SIZE])?;
 
         Ok(())
     }
